@@ -444,7 +444,7 @@ func inboundPaths(r *lib.Run, idx, limit int) {
 		{"garbage-stream", func(p *peer, c uint16, n int) { _ = stream(p, c, []byte{0xff, 0xff, 0xff, 0xff, 0x7f, 1, 2, 3}, false) }, 12 * time.Second},
 		{"wrong-item-count", func(p *peer, c uint16, n int) { _ = stream(p, c, portalwire.VerifEncodeContents(items(n+1)), false) }, 12 * time.Second},
 		{"dialled-and-closed", func(p *peer, c uint16, n int) { _ = stream(p, c, nil, true) }, 100 * time.Second}, // the code's own 60 s read timeout
-		{"never-dialled", func(p *peer, c uint16, n int) {}, 60 * time.Second}, // the code's own 15 s accept timeout
+		{"never-dialled", func(p *peer, c uint16, n int) {}, 60 * time.Second},                                    // the code's own 15 s accept timeout
 	}
 	for _, sc := range scens {
 		if limit == 0 {
